@@ -30,6 +30,10 @@ def hosts(tier: str) -> t.Dict[str, dict]:
         'recstart': {'nodes': {'I': P(('x', 'plain')), 'R': P(('p', 'in', 'I')), 'D': P(('p', 'in', 'R')),
                                'O': P(('r', 'rec', {'start': 'R', 'dest': 'D', 'max': 1}))}, 'input': 'I', 'output': 'O'},
     }
+    # a retrying node outside a recurrent subgraph that reads a node inside it: the subgraph may re-execute that node while
+    # the reader sleeps between attempts; its attempts must still all get the same arguments
+    h['outside-reader'] = {'nodes': {'I': P(('x', 'plain')), 'S': P(('p', 'in', 'I')), 'D': P(('p', 'in', 'S')), 'R': P(('p', 'in', 'S')),
+                                     'O': P(('r', 'in', 'R'), ('d', 'rec', {'start': 'S', 'dest': 'D', 'max': 1}))}, 'input': 'I', 'output': 'O'}
     if tier != 'quick':
         h['output'] = {'nodes': {'I': P(('x', 'plain')), 'R': P(('p', 'in', 'I'))}, 'input': 'I', 'output': 'R'}
         h['two-retrying'] = {'nodes': {'I': P(('x', 'plain')), 'R': P(('p', 'in', 'I')),
@@ -72,6 +76,8 @@ def host_plans(host: str, seq: t.List[str]) -> t.List[dict]:
         return [{'R': seq}, {'R': seq, 'B': ['raise:E2']}]
     if host == 'recstart':
         return [{'R': ['ok'] + seq, 'D': ['next', 'ok']}, {'R': seq, 'D': ['next', 'ok']}]
+    if host == 'outside-reader':
+        return [{'R': seq, 'D': ['next', 'ok']}, {'R': seq}]
     if host == 'case':
         return [{'R': seq, 'S': ['label:a']}]
     return [{'R': seq}]
